@@ -82,7 +82,9 @@ class WriterExtractor:
         an = asn1_anchors(self.m)
         for name, kind in WRITE_KINDS.items():
             callee = an.writer_helper.get(name)
-            tag = self._default_in(callee) if callee else None
+            tag = self._default_in(self.m.find_method(w.qualname, name))       # the method itself may carry the default
+            if tag is None:
+                tag = self._default_in(callee) if callee else None
             hops = 0
             while tag is None and callee is not None and hops < 3:
                 # write_enumerated's helper delegates to the integer helper with  tag=tag or DEFAULT
@@ -109,6 +111,14 @@ class WriterExtractor:
         tag parameter to (the helper's other arguments folded at this call site)."""
         if fi is None or depth > 3:
             return None
+        for n in ast.walk(fi.node):
+            if isinstance(n, ast.BoolOp) and isinstance(n.op, ast.Or) and len(n.values) == 2 and norm(n.values[0]) == tagname:
+                try:
+                    v = self.folder.fold(n.values[1], ASN1, env)
+                except Unfoldable:
+                    v = None
+                if isinstance(v, TagConst):
+                    return v
         for n in ast.walk(fi.node):
             if isinstance(n, ast.If) and isinstance(n.test, ast.UnaryOp) and isinstance(n.test.op, ast.Not) and norm(n.test.operand) == tagname:
                 for s in n.body:
@@ -845,25 +855,61 @@ class ReaderExtractor:
         self.folder = Folder(model)
         self.r = Resolver(model)
         self.default_tags: Dict[str, TagConst] = {}
+        from .anchors import asn1 as asn1_anchors
+        an = asn1_anchors(self.m)
         for name, kind in list(READ_KINDS.items()) + list(READ_CONS.items()):
             fi = self.m.find_method(f"{ASN1}.ASN1Reader", name)
             if fi is None:
                 raise AnalysisError(f"ASN1Reader.{name} not found")
-            from .anchors import asn1 as asn1_anchors
-            helper = asn1_anchors(self.m).reader_helper.get(name)
-            if helper is None and name in ("read_set_of", "read_sequence_of"):
-                helper = asn1_anchors(self.m).reader_helper.get(name[:-3])
-            tag = None
-            if helper is not None:
-                for n in ast.walk(helper.node):
-                    if isinstance(n, ast.IfExp) and norm(n.test) == "header":
-                        try:
-                            tag = self.folder.fold(n.orelse, ASN1)
-                        except Unfoldable:
-                            tag = None
+            tag = self._reader_default(fi, an)
             if not isinstance(tag, TagConst):
                 raise AnalysisError(f"default tag of ASN1Reader.{name} not recovered")
             self.default_tags[name] = tag
+
+    def _reader_default(self, fi: FuncInfo, an, env: Optional[Dict[str, Any]] = None, depth: int = 0) -> Optional[TagConst]:
+        """The tag a read_* method falls back to: the else-arm of `header.tag if header else <default>` in the method itself or in
+        the (module-level or private-method) helper it delegates to, with the helper's parameters bound to the constants the
+        method passes."""
+        if depth > 3:
+            return None
+        for n in ast.walk(fi.node):
+            if isinstance(n, ast.IfExp) and norm(n.test) == "header":
+                try:
+                    v = self.folder.fold(n.orelse, ASN1, env)
+                except Unfoldable:
+                    v = None
+                if isinstance(v, TagConst):
+                    return v
+        for n in ast.walk(fi.node):
+            if not isinstance(n, ast.Call):
+                continue
+            callee = None
+            if isinstance(n.func, ast.Name):
+                q = self.m.resolve_name(fi.module, n.func.id)
+                callee = self.m.functions.get(q) if q else None
+            elif isinstance(n.func, ast.Attribute) and isinstance(n.func.value, ast.Name) and n.func.value.id in ("self", "cls") and fi.cls:
+                callee = self.m.find_method(fi.cls, n.func.attr)
+            if callee is None or callee is fi or isinstance(callee.node, ast.Lambda) or callee.module != ASN1:
+                continue
+            ps = callee.params()
+            if callee.cls and not callee.is_staticmethod:
+                ps = ps[1:]
+            env2: Dict[str, Any] = {}
+            for p_, a in [(ps[i], a) for i, a in enumerate(n.args) if i < len(ps)] + [(k.arg, k.value) for k in n.keywords if k.arg in ps]:
+                try:
+                    env2[p_] = self.folder.fold(a, fi.module, env)
+                except Unfoldable:
+                    # a module function handed on as a value (`self._read_and_advance(_read_asn1_set, ...)`): look inside it
+                    if isinstance(a, ast.Name):
+                        q2 = self.m.resolve_name(fi.module, a.id)
+                        if q2 in self.m.functions:
+                            v = self._reader_default(self.m.functions[q2], an, None, depth + 1)
+                            if v is not None:
+                                return v
+            v = self._reader_default(callee, an, env2, depth + 1)
+            if v is not None:
+                return v
+        return None
 
     # ------------------------------------------------------------------ entry
     def extract(self, fi: FuncInfo, cls_q: Optional[str] = None, reader_param: Optional[str] = None) -> ReaderResult:
